@@ -18,7 +18,7 @@
                  ties theorem codegen_total to the real code generators)
    Verdicts:
      VIOL class=capture-under-binder <name> core: <why>     the FORMER finding capture-under-binder-typing (repaired in /repo by
-                                 <commitcap>; no known_findings entry matches it any more: a plain violation now): ONLY when
+                                 d5d4151; no known_findings entry matches it any more: a plain violation now): ONLY when
                                  [shadowing_risk_prog] holds of the source AND the first ill-typed stage is core
                                  AND the failure is an occurrence resolved to a binder of another chirality/type
                                  (or two parameters of the same name in a shared continuation share_<def>_<k>)
@@ -265,7 +265,7 @@ Definition wtstages_case (i r : sexp) : verdict :=
                  of main passes one - the FIRST ill-typed stage is core and the failure is that call's arity *)
               if calls_main_prog fp && String.eqb st "core" && contains "call main: wrong number of arguments" why
               then VViol ("class=call-to-main-typing " ++ name ++ " core: " ++ trunc 300 why)
-              (* former finding capture-under-binder-typing (repaired by <commitcap>; a plain violation now) *)
+              (* former finding capture-under-binder-typing (repaired by d5d4151; a plain violation now) *)
               else if risk && String.eqb st "core" && is_rebinding_message why
               then VViol ("class=capture-under-binder " ++ name ++ " core: " ++ trunc 300 why)
               (* former finding main-non-integer-result (fixed; no known_findings entry matches it any more): the FIRST ill-typed stage is core and the failure is the
